@@ -82,11 +82,6 @@ def specCallTV (num den : List (Int × Coef α)) (mem : Mem α) (zero : α) (xs 
       if b.all (fun c => c == 0) ∧ as.all (fun c => c == 0) then .ok (xs.map fun _ => zero)
       else .ok (tvspec b as a0 zero 0 (specMem zero as.length mem) [] xs)
 
-/-- a coefficient seen from output `n` on: what is left of a Stream after `n` items -/
-def Coef.dropC (n : Nat) : Coef α → Coef α
-  | .const c => .const c
-  | .strm s => .strm (s.drop n)
-
 /-- The contract over a two-call history of ONE filter object (first output consumed to its end,
 then the second call): a coefficient Stream is an iterator the filter owns, so the second call
 goes on with each coefficient stream where the first call stopped reading — "output n uses each
